@@ -245,6 +245,12 @@ def _zoo() -> typing.List[typing.Tuple[str, typing.Any, typing.Callable[[], typi
     add("string", "a", lambda: E.String("a"))
     add("string", "b", lambda: E.String("b"))
     add("string", "", lambda: E.String(""))
+    add("string", "e-acute composed", lambda: E.String("\u00e9"))
+    add("string", "e-acute decomposed", lambda: E.String("e\u0301"))
+    add("string", "angstrom sign", lambda: E.String("\u212b"))
+    add("string", "A-ring", lambda: E.String("\u00c5"))
+    add("set", "{e-acute composed}", lambda: E.Set([E.String("\u00e9")]))
+    add("set", "{e-acute decomposed}", lambda: E.Set([E.String("e\u0301")]))
     add("set", "{1,2}", lambda: E.Set([E.Rational(1), E.Rational(2)]))
     add("set", "{1,2}", lambda: E.Set([E.Rational(2), E.Rational(1), E.Rational(Fr(4, 2))]))
     add("set", "{1}", lambda: E.Set([E.Rational(1)]))
